@@ -196,6 +196,63 @@ def prune_and_listing(chk, prog):
             pats=[(__import__('re').compile(r'^\(\*?github\.com/prometheus/client_golang/prometheus\.'), prom_any)])
 
 
+def prune_vs_add(chk, prog):
+    """the background clean-up (prune) against a concurrent Add for the same operation: every lock-protected region is one atomic
+    step; Add (one write-locked region) is placed before prune, at any point where prune holds no lock, or after it - an added live
+    fault is never lost and the live ones that were there stay"""
+    def harness(ex, ob):
+        n = 1 + ex.choose(2)
+        counts = [z3.Int('c%d' % i) for i in range(n)]
+        for c in counts:
+            ex.assume(z3.And(c >= -1, c <= 2))
+        ptrs = [ex.new_ptr(ex.new_struct(F + 'Description', Operation='Op', Parameters=None, Count=c, FaultDescription='d%d' % i)) for i, c in enumerate(counts)]
+        s = mkset(ex, {'Op': ptrs})
+        newd = ex.new_struct(F + 'Description', Operation='Op', Parameters=None, Count=1, FaultDescription='added')
+        st = {'held': 0, 'added_at': None, 'in_add': False, 'points': 0}
+
+        def do_add(where):
+            st['in_add'] = True
+            try:
+                ex.call_named('(*' + F + 'Set).Add', [s, newd])
+            finally:
+                st['in_add'] = False
+            st['added_at'] = where
+
+        def mutex(ex_, a, name):
+            op = name.rsplit('.', 1)[-1]
+            if st['in_add']:
+                return None
+            if op in ('Lock', 'RLock'):
+                if st['held'] == 0 and st['added_at'] is None:
+                    st['points'] += 1
+                    if ex_.choose(2) == 1:       # the other thread's Add gets the lock first
+                        do_add('before lock acquisition %d of prune' % st['points'])
+                st['held'] += 1
+            elif op in ('Unlock', 'RUnlock'):
+                st['held'] -= 1
+            return None
+
+        def atomic_load(ex_, a, name):
+            return a[0].get()
+        ex.intrinsics = dict(ex.intrinsics)
+        ex.intrinsics['sync/atomic.LoadInt64'] = atomic_load
+        for mname in ('(*sync.RWMutex).Lock', '(*sync.RWMutex).Unlock', '(*sync.RWMutex).RLock', '(*sync.RWMutex).RUnlock', '(*sync.Mutex).Lock', '(*sync.Mutex).Unlock'):
+            ex.intrinsics[mname] = mutex
+        ex.call_named('(*' + F + 'Set).prune', [s])
+        if st['added_at'] is None:
+            do_add('after prune')
+        m = ex.getf(s, 'faults')
+        kept = []
+        for k, v in m.ents:
+            kept += [ex.getf(x, 'FaultDescription') for x in v.items()]
+        d = lambda mdl: {'add placed': st['added_at'], 'counts': [mdl.eval(c, model_completion=True).as_long() for c in counts], 'left in the set': kept}
+        ob.verify(ex, 'concurrent-add-is-not-lost', 'added' in kept, d)
+        for i in range(n):
+            ob.verify(ex, 'live-fault-survives-prune-and-add[%d]' % i, Implies(counts[i] > 0, ('d%d' % i) in kept), d)
+    chk.run('prune-against-concurrent-add', prog, harness, bounds={'descriptions before': '1..2', 'counts': '-1..2', 'interleaving': 'Add as one atomic step at every lock acquisition of prune'},
+            pats=[(__import__('re').compile(r'^\(\*?github\.com/prometheus/client_golang/prometheus\.'), prom_any)])
+
+
 def request_parameters(chk, prog):
     """grpc/faults.go: the parameter set a call is matched against is exactly {service: method} plus the string fields of THAT request -
     nothing left over from an earlier message that went through the pooled map (unary, stream receive and stream send entry points)"""
@@ -297,6 +354,7 @@ if __name__ == '__main__':
     chk.repo_hash = prog.repo_hash
     subset_match(chk, prog)
     prune_and_listing(chk, prog)
+    prune_vs_add(chk, prog)
     request_parameters(chk, prog)
     concurrent_count(chk, prog, 2, 1)
     concurrent_count(chk, prog, 3, 1)
@@ -306,6 +364,6 @@ if __name__ == '__main__':
         concurrent_count(chk, prog, 4, 1)
     chk.assumptions += ['sync/atomic operations are sequentially consistent single events; the schedule is a total order (integer timestamps) over them',
                         'each thread is executed symbolically once; values read are initial count minus the decrements ordered before (an SMT constraint), so all interleavings are decided by the solver, not enumerated',
-                        'sync.RWMutex only delimits the read-locked scan (no writer runs concurrently in this obligation: Add/prune are covered sequentially)',
+                        'sync.RWMutex in the count obligations only delimits the read-locked scan; prune against a concurrent Add is its own obligation (lock-protected regions = atomic steps)',
                         'real protoreflect descriptors of the generated messages are outside the claim (modelled)']
     chk.finish()
